@@ -316,3 +316,19 @@ def main(ctx):
         "Legendre symbols over a trial-division factorisation. Non-trivial = "
         "a not in {0,1} mod m." % (ms[-1], ctx.pick(2000, 12000), odd[-1]))
     return rep
+
+
+def mixed_cases(ctx):
+    items = []
+    mods = [13, 17, 29, 97, 101, 257, 2 ** 127 - 1, 2 ** 255 - 19,
+            2 ** 64 - 2 ** 32 + 1]
+    for a in (2, 3, 5, 10, 12):
+        for m in mods:
+            items.append(("inv", dict(variant="native", a=a, m=m)))
+            items.append(("inv", dict(variant="euclid", a=a, m=m)))
+            items.append(("sqrt", dict(a=a % m, p=m)))
+            items.append(("sqrt", dict(a=a * a % m, p=m)))
+            if m < 10 ** 6:          # reference factorises n by trial division
+                items.append(("jacobi", dict(a=a, n=m)))
+                items.append(("jacobi", dict(a=-a, n=m)))
+    return [items]
